@@ -29,6 +29,14 @@ var solvers = []solverSpec{
 	{"cvc5", func(f string, t int) []string {
 		return []string{"cvc5", "--produce-models", fmt.Sprintf("--tlimit=%d", t*1000), f}
 	}},
+	// two more seeds: quantified array goals are sensitive to the instantiation order, and an
+	// obligation that one seed loses itself in is usually decided by another within a second
+	{"z3-new-seed7", func(f string, t int) []string {
+		return []string{"z3-new", fmt.Sprintf("-T:%d", t), "smt.random_seed=7", "sat.random_seed=7", f}
+	}},
+	{"z3-new-plain-seed3", func(f string, t int) []string {
+		return []string{"z3-new", fmt.Sprintf("-T:%d", t), "smt.auto_config=false", "smt.random_seed=3", f}
+	}},
 }
 
 func (o *Obligation) query(withModel bool) string {
@@ -45,6 +53,7 @@ func (o *Obligation) query(withModel bool) string {
 		}
 	}
 	body := strings.Join(bodyLines, "\n") + "\n" + o.Goal
+	var kept []string
 	for i, l := range lines {
 		if ax, isAx := o.VC.axLines[i]; isAx {
 			used := false
@@ -73,6 +82,12 @@ func (o *Obligation) query(withModel bool) string {
 				}
 			}
 		}
+		kept = append(kept, l)
+	}
+	if o.Expect != "sat" {
+		kept = dropOffPathFacts(kept, o.Goal)
+	}
+	for _, l := range dropDeadDecls(kept, o.Goal) {
 		b.WriteString(l)
 		b.WriteByte('\n')
 	}
@@ -170,7 +185,11 @@ func discharge(o *Obligation, workdir string, idx int, timeout int, all bool) {
 				unsat = n
 			}
 		}
-		o.Solver = fmt.Sprintf("z3-new=%s z3=%s cvc5=%s z3-new-plain=%s", results["z3-new"], results["z3"], results["cvc5"], results["z3-new-plain"])
+		var parts []string
+		for _, s := range solvers {
+			parts = append(parts, s.name+"="+results[s.name])
+		}
+		o.Solver = strings.Join(parts, " ")
 		switch {
 		case sat != "" && unsat != "":
 			o.Result = "disagreement"
